@@ -94,7 +94,10 @@ Record smsg := { s_signer : N; s_slot : N; s_msgs : list pmsg }.
 
 (* What the runner knows: Share.Committee (operator ids), Share.Quorum, the slot of the decided
    duty, and the signing roots expected from the decided value, in the runner's order. *)
-Record cfg := { committee : list N; quorum : nat; duty_slot : N; expected : list N }.
+(* fix_multi: the runner contains the repair of finding P3 (multi-root loop goes on after a failed
+   reconstruction; Finished only when every expected root has its quorum).  Only the sync-committee
+   contribution runner has more than one root; for one root both variants behave alike. *)
+Record cfg := { committee : list N; quorum : nat; duty_slot : N; expected : list N; fix_multi : bool }.
 
 Inductive errc :=
 | EOk | ENoDuty | EBadMsg | ESlot | ESigner | ECount | ERoot | EBadQuorum | EBN.
@@ -189,6 +192,21 @@ Fixpoint submit_loop (q : nat) (bn_ok : bool) (c : container) (all roots : list 
       else (fallback_all c all, [], LBadQuorum)
   end.
 
+(* the repaired loop: a root that fails to reconstruct loses its invalid shares and the loop goes on *)
+Fixpoint submit_loop_fixed (q : nat) (bn_ok : bool) (c : container) (roots : list N) (bad : bool)
+  : container * list submission * loop_end :=
+  match roots with
+  | [] => (c, [], if bad then LBadQuorum else LDone)
+  | r :: tl =>
+      let sg := reconstruct q (get_sigs c r) in
+      if verify_reconstructed sg then
+        let s := {| sub_root := r; sub_sig := sg |} in
+        if bn_ok then
+          let '(c1, subs, e) := submit_loop_fixed q bn_ok c tl bad in (c1, s :: subs, e)
+        else (c, [s], LBN)
+      else submit_loop_fixed q bn_ok (fallback c r) tl true
+  end.
+
 (* ---- one message -------------------------------------------------------------------------------- *)
 
 Record pstate := { cont : container; finished : bool }.
@@ -200,6 +218,15 @@ Record out := { o_err : errc; o_subs : list submission }.
 (* input = message + whether the beacon node accepts submissions during this call *)
 Definition input := (smsg * bool)%type.
 
+Definition run_loop (g : cfg) (bn_ok : bool) (c : container) (roots : list N)
+  : container * list submission * loop_end :=
+  if fix_multi g then submit_loop_fixed (quorum g) bn_ok c roots false
+  else submit_loop (quorum g) bn_ok c roots roots.
+
+(* Finished after a loop without failure *)
+Definition finished_after (g : cfg) (c : container) : bool :=
+  if fix_multi g then forallb (has_quorum (quorum g) c) (expected g) else true.
+
 Definition step (g : cfg) (st : pstate) (i : input) : pstate * out :=
   let '(m, bn_ok) := i in
   if finished st then (st, {| o_err := ENoDuty; o_subs := [] |})        (* hasRunningDuty *)
@@ -210,9 +237,9 @@ Definition step (g : cfg) (st : pstate) (i : input) : pstate * out :=
         match roots with
         | [] => ({| cont := c1; finished := false |}, {| o_err := EOk; o_subs := [] |})
         | _ =>
-            let '(c2, subs, e) := submit_loop (quorum g) bn_ok c1 roots roots in
+            let '(c2, subs, e) := run_loop g bn_ok c1 roots in
             match e with
-            | LDone => ({| cont := c2; finished := true |}, {| o_err := EOk; o_subs := subs |})
+            | LDone => ({| cont := c2; finished := finished_after g c2 |}, {| o_err := EOk; o_subs := subs |})
             | LBadQuorum => ({| cont := c2; finished := false |}, {| o_err := EBadQuorum; o_subs := subs |})
             | LBN => ({| cont := c2; finished := false |}, {| o_err := EBN; o_subs := subs |})
             end
